@@ -2,6 +2,7 @@
 //! abstract machines (the independent oracles), evidence helpers.  Depends on nothing of the
 //! crate under verification.
 pub mod arena;
+pub mod flush;
 pub mod isolate;
 pub mod proc;
 pub mod x64;
